@@ -193,7 +193,7 @@ def check(run, driver):
     # ---- translator obligation
     tabs, notes = gen_tables.generate()
     u = tabs.get("utils") or {}
-    if "LINK_TYPE_SEMANTICS" not in u:
+    if "LINK_TYPE_SEMANTICS" not in u or "SEMANTIC_TO_LINK_TYPE" not in u:
         run.extra["translator"] = "UNTRANSLATABLE (" + "; ".join(notes) + ") -- the source no longer has a shape the AST translator recognises; the table obligation is not established on this run and the property is decided by the correspondence alone (DESIGN.md §2.4)"
     else:
         body = ("example : Generated.linkTypeSemantics = CE.Graph.stdSem := by decide\n"
